@@ -5,6 +5,7 @@ Results: /tmp/seedrun/results.jsonl"""
 import json, os, subprocess, sys, time, re
 
 ROOT = "/tmp/seedrun"
+RESULTS = os.environ.get("RESULTS", ROOT + "/results.jsonl")
 R = lambda *a, **k: subprocess.run(*a, shell=True, text=True, stdout=subprocess.PIPE, stderr=subprocess.STDOUT, **k)
 
 
@@ -28,7 +29,7 @@ def main():
         a = R(f"git -C {ROOT}/repo apply {patch}")
         if a.returncode != 0:
             rec = {"name": name, "error": "patch does not apply: " + a.stdout[-300:]}
-            open(ROOT + "/results.jsonl", "a").write(json.dumps(rec) + "\n")
+            open(RESULTS, "a").write(json.dumps(rec) + "\n")
             continue
         for p in props:
             t0 = time.time()
@@ -41,7 +42,7 @@ def main():
                 "summary": [l for l in out.splitlines() if l.startswith("[C")][-1:],
                 "tail": out[-400:] if r.returncode not in (0, 1) else "",
             }
-            open(ROOT + "/results.jsonl", "a").write(json.dumps(rec) + "\n")
+            open(RESULTS, "a").write(json.dumps(rec) + "\n")
             print(name, p, "rc", r.returncode, rec["wall"], "s", rec["messages"][:1], flush=True)
     R(f"git -C {ROOT}/repo checkout -- .")
 
